@@ -102,6 +102,9 @@ def ordered_equal(a, b, order):
     """Sequences equal on the ORDER BY key columns, and equal as multisets."""
     if ms(a) != ms(b):
         return False
+    if any(i < 0 for i, _ in order):
+        # ordered by a unique key that is not in the select list: the whole sequence is determined
+        return [tuple(r) for r in a] == [tuple(r) for r in b]
     ka = [tuple(r[i] for i, _ in order) for r in a]
     kb = [tuple(r[i] for i, _ in order) for r in b]
     return ka == kb
@@ -114,6 +117,8 @@ def is_sorted(rows, order):
 
     def cmp(x, y):
         for i, desc in order:
+            if i < 0:
+                continue
             a, b = cell_key(x[i]), cell_key(y[i])
             if a != b:
                 c = -1 if a < b else 1
